@@ -160,6 +160,9 @@ def step (s : St) (ws : List String) : St × String :=
       | _ => (s, "none")
     | none => (s, "none")
   | ["q", "bal", a] => (s, toString (s.node.led.getBal a))
+  | ["q", "bals"] =>
+    (s, joinSp (["u0", "u1", "u2", "u3", "ca1", "ca2", "ca3", "adm0", "adm1", "adm2", "adm3"].map
+      fun a => s!"{a}={s.node.led.getBal a}"))
   | ["q", "height"] => (s, toString s.node.height)
   | ["restart"] => ({ s with node := { s.node with cache := [] } }, s!"ok h={s.node.height}")
   | ["restart", _] => ({ s with node := { s.node with cache := [] } }, s!"ok h={s.node.height}")
